@@ -42,10 +42,7 @@ def build_impl(spec):
         if spec['kind'] == 'raw':
             obj = ThermochemRawData(spec['href'], spec['sref'], [p[0] for p in pts], [p[1] for p in pts],
                                     T_ref=spec['tref'], range=rng)
-        else:
-            cls = ThermochemGroup if spec['kind'] == 'grp' else ThermochemIncomplete
-            obj = cls(spec['href'], spec['sref'], dict((p[0], p[1]) for p in pts), spec['tref'], rng)
-        return obj, 'ok'
+XX
     except Exception as e:
         return None, exc_name(e)
 
